@@ -212,6 +212,22 @@ def run_chain(spec, work, ctx):
                       [rp], [so], watch, empties)
         if e:
             return f'stats ({enc}) raised {e[-300:]}'
+    # the statistics stage entered with an explicit tree and the option to
+    # work on a scratch copy of the data
+    m3 = ref.model
+    m3.cells = {lf: [j for j, l in enumerate(ref.labels) if l == lf]
+                for lf in m3.leaves}
+    tree_dict = m3.to_dict(with_cells=True)
+    for cp in (True, False):
+        so = outd / f'stats_tree_copy{int(cp)}.h5'
+        e = monitored(
+            ctx, f'stats-with-tree[copy_data_over={cp}]',
+            lambda: pw.run_stats_with_tree(ref, so, scratch, tree_dict,
+                                           n_processors=2, rows_at_a_time=9,
+                                           copy_data_over=cp),
+            [ref.path], [so], watch, empties)
+        if e:
+            return f'stats with tree raised {e[-300:]}'
     e = monitored(ctx, 'reference-markers',
                   lambda: pw.run_ref_markers(stats, refm, scratch,
                                              n_processors=3),
